@@ -1004,6 +1004,26 @@ func c02Helpers(c *Ctx) {
 		}
 		r.Check(okRes, "C02.P6", "search_subjects#result", "", "yields the subject node itself", "search_subjects does not yield the node it iterated")
 	}
+	// a subject qualifies by the link test alone: the searches have no second test that excludes candidates (p^ over all
+	// graphs, including nodes that point to themselves)
+	for _, name := range []string{"search_subjects", "search_custom_property_subjects"} {
+		for _, rl := range rp.rulesNamed(name) {
+			var excluding []string
+			for _, e := range rl.Body {
+				if e.Negated {
+					excluding = append(excluding, "not "+e.String())
+					continue
+				}
+				if e.IsCall() {
+					switch e.Operator().String() {
+					case "neq", "lt", "gt", "lte", "gte":
+						excluding = append(excluding, e.String())
+					}
+				}
+			}
+			r.Check(len(excluding) == 0, "C02.P6", name+"#no-excluding-test", "", "candidates are only tested for the link to the object", name+" drops candidate subjects by an extra test ("+strings.Join(excluding, "; ")+"): the converse of a predicate then misses some of the nodes that point to the object (a node that points to itself, for instance)")
+		}
+	}
 	fd := rp.rulesNamed("find")
 	okFind := false
 	if len(fd) == 1 {
